@@ -104,6 +104,7 @@ pub fn decode_c12(b: &[u8]) -> c12::Case {
             2 => c12::TOp::Display,
             3 => c12::TOp::Debug,
             4 => c12::TOp::Serialize,
+            5 => c12::TOp::CloneFromOther,
             _ => c12::TOp::Next(r.inp()),
         });
     }
